@@ -284,8 +284,8 @@ theorem mrScan_spec (h : Bytes) (fuel : Nat) (n : Int) (quotes : Nat) (esc : Boo
               exact ⟨n', h1, by omega, h3⟩
     · exact ⟨n, rfl, by omega, by omega⟩
 
-theorem trimLeft_length_le (s : Bytes) (c : Nat) : (trimLeft s c).length ≤ s.length := by
-  unfold trimLeft
+theorem trimLeftOWS_length_le (s : Bytes) : (trimLeftOWS s).length ≤ s.length := by
+  unfold trimLeftOWS
   exact (List.dropWhile_sublist _).length_le
 
 theorem mediaRanges_total (dq : Bool) (fuel : Nat) (header : Bytes) (acc : List Bytes)
@@ -296,28 +296,28 @@ theorem mediaRanges_total (dq : Bool) (fuel : Nat) (header : Bytes) (acc : List 
     simp only [mediaRanges]
     split
     · exact Ok.pure _
-    · have htl := trimLeft_length_le header 32
+    · have htl := trimLeftOWS_length_le header
       -- the position of the next top-level comma (or the end)
-      have hn : ∃ n, (if dq = true then mrScan (trimLeft header 32) ((trimLeft header 32).length + 1) 0 0 false
-            else Except.ok (let n := indexByteI (trimLeft header 32) 44;
-              if n = -1 then ((trimLeft header 32).length : Int) else n)) = .ok n ∧ 0 ≤ n ∧ n ≤ (trimLeft header 32).length := by
+      have hn : ∃ n, (if dq = true then mrScan (trimLeftOWS header) ((trimLeftOWS header).length + 1) 0 0 false
+            else Except.ok (let n := indexByteI (trimLeftOWS header) 44;
+              if n = -1 then ((trimLeftOWS header).length : Int) else n)) = .ok n ∧ 0 ≤ n ∧ n ≤ (trimLeftOWS header).length := by
         split
-        · obtain ⟨n', h1, h2, h3⟩ := mrScan_spec (trimLeft header 32) ((trimLeft header 32).length + 1) 0 0 false (by omega) (by omega) (by omega)
+        · obtain ⟨n', h1, h2, h3⟩ := mrScan_spec (trimLeftOWS header) ((trimLeftOWS header).length + 1) 0 0 false (by omega) (by omega) (by omega)
           exact ⟨n', h1, by omega, h3⟩
-        · rcases indexByteI_range (trimLeft header 32) 44 with h | ⟨h1, h2⟩
+        · rcases indexByteI_range (trimLeftOWS header) 44 with h | ⟨h1, h2⟩
           · exact ⟨_, rfl, by simp [h], by simp [h]⟩
-          · have : indexByteI (trimLeft header 32) 44 ≠ -1 := by omega
+          · have : indexByteI (trimLeftOWS header) 44 ≠ -1 := by omega
             exact ⟨_, rfl, by simp [this]; omega, by simp [this]; omega⟩
       obtain ⟨n, hn1, hn2, hn3⟩ := hn
       rw [hn1]
       simp only [bind, Except.bind]
-      obtain ⟨mr, hmr⟩ := sliceTo_ok (s := trimLeft header 32) hn2 hn3
+      obtain ⟨mr, hmr⟩ := sliceTo_ok (s := trimLeftOWS header) hn2 hn3
       rw [hmr]
       simp only
       split
       · exact Ok.pure _
       · rename_i hlt
-        obtain ⟨rest, hrest⟩ := sliceFrom_ok (s := trimLeft header 32) (i := n + 1) (by omega) (by omega)
+        obtain ⟨rest, hrest⟩ := sliceFrom_ok (s := trimLeftOWS header) (i := n + 1) (by omega) (by omega)
         rw [hrest]
         simp only
         have := (sliceFrom_len hrest).2.2
